@@ -86,6 +86,8 @@ pub mod consistent_hash;
 pub mod delta_vector;
 pub mod distance;
 pub mod durable_blob_log;
+#[cfg(feature = "neumann_verif")]
+pub mod verif_hooks;
 pub mod embedding_slab;
 pub mod entity_index;
 pub mod graph_tensor;
